@@ -119,6 +119,13 @@ class ConstEval:
                 if op in ('add', 'sub', 'mul', 'and', 'or', 'xor', 'shl', 'lshr', 'ashr', 'sdiv', 'srem', 'udiv', 'urem'):
                     a, c = val(ins.ops[0]), val(ins.ops[1])
                     w = width_of(ins.ty)
+                    # pointer difference inside one object: (p - q) / sizeof(element), as the C front end emits it
+                    if op == 'sub' and isinstance(a, tuple) and isinstance(c, tuple) and a[0] == c[0] == 'obj' and a[1] == c[1]:
+                        pa, pc_ = (a[2] or (0,)), (c[2] or (0,))
+                        if len(pa) == len(pc_) == 1 and isinstance(pa[0], int) and isinstance(pc_[0], int):
+                            env[ins.res] = ('pdiff', pa[0] - pc_[0]); continue
+                    if op in ('sdiv', 'ashr') and isinstance(a, tuple) and a[0] == 'pdiff' and isinstance(c, int) and c in (1, 2, 3, 4, 8):
+                        env[ins.res] = a[1]; continue
                     if isinstance(a, int) and isinstance(c, int):
                         if op in ('sdiv', 'srem', 'udiv', 'urem') and c == 0:
                             events.append(('div0', ins, None)); env[ins.res] = None; continue
